@@ -14,6 +14,7 @@ import (
 	"container/list"
 	"context"
 	"fmt"
+	"sort"
 	"sync"
 
 	"github.com/ipfs/go-cid"
@@ -57,17 +58,12 @@ func (db *DB) executeMerge(ctx context.Context, col *collection, dagMerge event.
 		key = keys.NewHeadstoreColKey(shortID)
 	}
 
-	mt, err := getHeadsAsMergeTarget(ctx, key)
-	if err != nil {
-		return err
-	}
-
 	mp, err := db.newMergeProcessor(ctx, col)
 	if err != nil {
 		return err
 	}
 
-	err = mp.loadComposites(ctx, dagMerge.Cid, mt)
+	err = mp.loadComposites(ctx, dagMerge.Cid, key)
 	if err != nil {
 		return err
 	}
@@ -151,6 +147,8 @@ type mergeProcessor struct {
 
 	// composites is a list of composites that need to be merged.
 	composites *list.List
+	// visited is the set of composites already looked at while loading the composites to merge.
+	visited map[cid.Cid]struct{}
 	// missingEncryptionBlocks is a list of blocks that we failed to fetch
 	missingEncryptionBlocks map[cidlink.Link]struct{}
 	// availableEncryptionBlocks is a list of blocks that we have successfully fetched
@@ -175,33 +173,70 @@ func (db *DB) newMergeProcessor(
 		col:                       col,
 		docIDs:                    make(map[string]struct{}),
 		composites:                list.New(),
+		visited:                   make(map[cid.Cid]struct{}),
 		missingEncryptionBlocks:   make(map[cidlink.Link]struct{}),
 		availableEncryptionBlocks: make(map[cidlink.Link]*coreblock.Encryption),
 	}, nil
 }
 
-type mergeTarget struct {
-	heads      map[cid.Cid]*coreblock.Block
-	headHeight uint64
-}
-
-func newMergeTarget() mergeTarget {
-	return mergeTarget{
-		heads: make(map[cid.Cid]*coreblock.Block),
+// isMerged reports whether the block with the given CID and height has already been merged, i.e.
+// whether it is one of the heads stored under the given head-set key or an ancestor of one of them.
+//
+// It walks back from the current heads and never goes below the height of the block in question,
+// as a block at or below that height cannot have it as an ancestor.
+func (mp *mergeProcessor) isMerged(
+	ctx context.Context,
+	key keys.HeadstoreKey,
+	blockCid cid.Cid,
+	height uint64,
+) (bool, error) {
+	frontier, err := getHeads(ctx, key)
+	if err != nil {
+		return false, err
 	}
+
+	seen := make(map[cid.Cid]struct{})
+	for len(frontier) > 0 {
+		next := make([]cid.Cid, 0, len(frontier))
+		for _, c := range frontier {
+			if c.Equals(blockCid) {
+				return true, nil
+			}
+
+			block, err := loadBlockFromBlockStore(ctx, c)
+			if err != nil {
+				return false, err
+			}
+			if block.Delta.GetPriority() <= height {
+				continue
+			}
+
+			for _, head := range block.Heads {
+				if _, ok := seen[head.Cid]; !ok {
+					seen[head.Cid] = struct{}{}
+					next = append(next, head.Cid)
+				}
+			}
+		}
+		frontier = next
+	}
+
+	return false, nil
 }
 
 // loadComposites retrieves and stores into the merge processor the composite blocks for the given
 // CID until it reaches a block that has already been merged or until we reach the genesis block.
+//
+// Each block is loaded at most once, even if it can be reached via several paths.
 func (mp *mergeProcessor) loadComposites(
 	ctx context.Context,
 	blockCid cid.Cid,
-	mt mergeTarget,
+	key keys.HeadstoreKey,
 ) error {
-	if _, ok := mt.heads[blockCid]; ok {
-		// We've already processed this block.
+	if _, ok := mp.visited[blockCid]; ok {
 		return nil
 	}
+	mp.visited[blockCid] = struct{}{}
 
 	nd, err := mp.blockLS.Load(linking.LinkContext{Ctx: ctx}, cidlink.Link{Cid: blockCid}, coreblock.BlockSchemaPrototype)
 	if err != nil {
@@ -213,43 +248,46 @@ func (mp *mergeProcessor) loadComposites(
 		return err
 	}
 
-	// In the simplest case, the new block or its children will link to the current head/heads (merge target)
-	// of the composite DAG. However, the new block and its children might have branched off from an older block.
-	// In this case, we also need to walk back the merge target's DAG until we reach a common block.
-	if block.Delta.GetPriority() >= mt.headHeight {
-		mp.composites.PushFront(block)
-		for _, head := range block.Heads {
-			err := mp.loadComposites(ctx, head.Cid, mt)
-			if err != nil {
-				return err
-			}
-		}
-	} else {
-		newMT := newMergeTarget()
-		for _, b := range mt.heads {
-			for _, link := range b.Heads {
-				nd, err := mp.blockLS.Load(linking.LinkContext{Ctx: ctx}, link, coreblock.BlockSchemaPrototype)
-				if err != nil {
-					return err
-				}
+	merged, err := mp.isMerged(ctx, key, blockCid, block.Delta.GetPriority())
+	if err != nil {
+		return err
+	}
+	if merged {
+		// We've already processed this block, and with it all of its ancestors.
+		return nil
+	}
 
-				childBlock, err := coreblock.GetFromNode(nd)
-				if err != nil {
-					return err
-				}
-
-				newMT.heads[link.Cid] = childBlock
-				newMT.headHeight = childBlock.Delta.GetPriority()
-			}
+	mp.composites.PushFront(block)
+	for _, head := range block.Heads {
+		err := mp.loadComposites(ctx, head.Cid, key)
+		if err != nil {
+			return err
 		}
-		return mp.loadComposites(ctx, blockCid, newMT)
 	}
 	return nil
 }
 
 func (mp *mergeProcessor) mergeComposites(ctx context.Context) error {
+	err := mp.processComposites(ctx)
+	if err != nil {
+		return err
+	}
+
+	return mp.tryFetchMissingBlocksAndMerge(ctx)
+}
+
+// processComposites processes the loaded composites, parents before children.
+func (mp *mergeProcessor) processComposites(ctx context.Context) error {
+	// A block must be merged after all of its parents, and height strictly increases from parent to child.
+	blocks := make([]*coreblock.Block, 0, mp.composites.Len())
 	for e := mp.composites.Front(); e != nil; e = e.Next() {
-		block := e.Value.(*coreblock.Block)
+		blocks = append(blocks, e.Value.(*coreblock.Block))
+	}
+	sort.SliceStable(blocks, func(i, j int) bool {
+		return blocks[i].Delta.GetPriority() < blocks[j].Delta.GetPriority()
+	})
+
+	for _, block := range blocks {
 		link, err := block.GenerateLink()
 		if err != nil {
 			return err
@@ -260,7 +298,44 @@ func (mp *mergeProcessor) mergeComposites(ctx context.Context) error {
 		}
 	}
 
-	return mp.tryFetchMissingBlocksAndMerge(ctx)
+	return nil
+}
+
+// processLinkedComposite merges a document composite block that is linked from a collection block.
+//
+// The document's own DAG may contain ancestors of the block that have not been merged yet and that
+// the collection DAG does not lead to, so it is merged the same way as a document-level merge.
+func (mp *mergeProcessor) processLinkedComposite(
+	ctx context.Context,
+	block *coreblock.Block,
+	blockLink cidlink.Link,
+) error {
+	docMP := &mergeProcessor{
+		blockLS:                   mp.blockLS,
+		encBlockLS:                mp.encBlockLS,
+		col:                       mp.col,
+		docIDs:                    mp.docIDs,
+		composites:                list.New(),
+		visited:                   make(map[cid.Cid]struct{}),
+		missingEncryptionBlocks:   mp.missingEncryptionBlocks,
+		availableEncryptionBlocks: mp.availableEncryptionBlocks,
+	}
+
+	key := keys.HeadstoreDocKey{
+		DocID:   string(block.Delta.GetDocID()),
+		FieldID: core.COMPOSITE_NAMESPACE,
+	}
+	err := docMP.loadComposites(ctx, blockLink.Cid, key)
+	if err != nil {
+		return err
+	}
+
+	if docMP.composites.Len() == 0 {
+		// Already merged, only its links may still need to be looked at.
+		return mp.processBlock(ctx, block, blockLink)
+	}
+
+	return docMP.processComposites(ctx)
 }
 
 func (mp *mergeProcessor) tryFetchMissingBlocksAndMerge(ctx context.Context) error {
@@ -396,9 +471,18 @@ func (mp *mergeProcessor) processBlock(
 			return nil
 		}
 
-		err = coreblock.ProcessBlock(ctx, crdt, block, blockLink)
+		// A linked block may have been merged already, either via another block linking to it
+		// or because its own DAG was merged separately. It must not be applied a second time.
+		merged, err := mp.isMerged(ctx, crdt.HeadstorePrefix(), blockLink.Cid, dagBlock.Delta.GetPriority())
 		if err != nil {
 			return err
+		}
+
+		if !merged {
+			err = coreblock.ProcessBlock(ctx, crdt, block, blockLink)
+			if err != nil {
+				return err
+			}
 		}
 	}
 
@@ -413,7 +497,12 @@ func (mp *mergeProcessor) processBlock(
 			return err
 		}
 
-		if err := mp.processBlock(ctx, childBlock, link.Link); err != nil {
+		if dagBlock.Delta.IsCollection() && childBlock.Delta.IsComposite() {
+			err = mp.processLinkedComposite(ctx, childBlock, link.Link)
+		} else {
+			err = mp.processBlock(ctx, childBlock, link.Link)
+		}
+		if err != nil {
 			return err
 		}
 	}
@@ -525,29 +614,6 @@ func getCollectionFromCollectionID(ctx context.Context, db *DB, collectionID str
 	// We currently only support one active collection per root schema
 	// so it is safe to return the first one.
 	return cols[0].(*collection), nil
-}
-
-// getHeadsAsMergeTarget retrieves the heads of the composite DAG for the given document
-// and returns them as a merge target.
-func getHeadsAsMergeTarget(ctx context.Context, key keys.HeadstoreKey) (mergeTarget, error) {
-	cids, err := getHeads(ctx, key)
-
-	if err != nil {
-		return mergeTarget{}, err
-	}
-
-	mt := newMergeTarget()
-	for _, cid := range cids {
-		block, err := loadBlockFromBlockStore(ctx, cid)
-		if err != nil {
-			return mergeTarget{}, err
-		}
-
-		mt.heads[cid] = block
-		// All heads have the same height so overwriting is ok.
-		mt.headHeight = block.Delta.GetPriority()
-	}
-	return mt, nil
 }
 
 // getHeads retrieves the heads associated with the given datastore key.
